@@ -1362,6 +1362,115 @@ class C11(PropertyCheck):
         "curvature_reg_matrix) is not protected after that step: the property speaks about values reported subsequently",
     ]
     search_budget_s = {"quick": 60, "thorough": 300}
+    # functions whose purity / caching / copying behaviour the effects table and the cache machine describe
+    modelled_functions = [
+        "autoarray/abstract_ndarray.py:AbstractNDArray.__init__",
+        "autoarray/abstract_ndarray.py:AbstractNDArray.with_new_array",
+        "autoarray/abstract_ndarray.py:AbstractNDArray.copy",
+        "autoarray/abstract_ndarray.py:AbstractNDArray.__copy__",
+        "autoarray/abstract_ndarray.py:AbstractNDArray.__deepcopy__",
+        "autoarray/abstract_ndarray.py:AbstractNDArray._dict_without_cached_properties",
+        "autoarray/abstract_ndarray.py:AbstractNDArray.__getitem__",
+        "autoarray/abstract_ndarray.py:AbstractNDArray.__setitem__",
+        "autoarray/abstract_ndarray.py:to_new_array",
+        "autoarray/abstract_ndarray.py:unwrap_array",
+        "autoarray/structures/arrays/array_2d_util.py:convert_array_2d",
+        "autoarray/structures/arrays/array_2d_util.py:convert_array",
+        "autoarray/structures/grids/grid_2d_util.py:convert_grid_2d",
+        "autoarray/structures/grids/grid_2d_util.py:convert_grid",
+        "autoarray/structures/arrays/uniform_2d.py:AbstractArray2D.__init__",
+        "autoarray/structures/arrays/uniform_2d.py:AbstractArray2D.native",
+        "autoarray/structures/arrays/uniform_2d.py:AbstractArray2D.slim",
+        "autoarray/structures/arrays/uniform_2d.py:AbstractArray2D.apply_mask",
+        "autoarray/structures/arrays/uniform_2d.py:AbstractArray2D.trimmed_after_convolution_from",
+        "autoarray/structures/arrays/uniform_2d.py:AbstractArray2D.padded_before_convolution_from",
+        "autoarray/structures/arrays/uniform_2d.py:AbstractArray2D.resized_from",
+        "autoarray/structures/arrays/uniform_2d.py:AbstractArray2D.zoomed_around_mask",
+        "autoarray/structures/arrays/kernel_2d.py:Kernel2D.__init__",
+        "autoarray/structures/arrays/kernel_2d.py:Kernel2D.normalized",
+        "autoarray/structures/arrays/kernel_2d.py:Kernel2D.convolved_array_from",
+        "autoarray/structures/grids/uniform_2d.py:Grid2D.__init__",
+        "autoarray/structures/grids/uniform_2d.py:Grid2D.native",
+        "autoarray/structures/grids/uniform_2d.py:Grid2D.slim",
+        "autoarray/structures/grids/uniform_2d.py:Grid2D.flipped",
+        "autoarray/structures/grids/uniform_2d.py:Grid2D.in_radians",
+        "autoarray/structures/grids/uniform_2d.py:Grid2D.is_uniform",
+        "autoarray/structures/grids/uniform_2d.py:Grid2D.over_sampler",
+        "autoarray/structures/grids/uniform_2d.py:Grid2D.subtracted_from",
+        "autoarray/structures/grids/uniform_2d.py:Grid2D.grid_2d_via_deflection_grid_from",
+        "autoarray/structures/grids/uniform_2d.py:Grid2D.padded_grid_from",
+        "autoarray/structures/vectors/uniform.py:VectorYX2D.__init__",
+        "autoarray/structures/visibilities.py:AbstractVisibilities.__init__",
+        "autoarray/structures/visibilities.py:AbstractVisibilities.amplitudes",
+        "autoarray/structures/visibilities.py:AbstractVisibilities.phases",
+        "autoarray/structures/visibilities.py:AbstractVisibilities.in_array",
+        "autoarray/mask/mask_2d.py:Mask2D.__init__",
+        "autoarray/mask/mask_2d.py:Mask2D.circular_radius",
+        "autoarray/mask/mask_2d.py:Mask2D.is_circular",
+        "autoarray/mask/mask_2d.py:Mask2D.rescaled_from",
+        "autoarray/mask/mask_2d.py:Mask2D.resized_from",
+        "autoarray/dataset/abstract/dataset.py:AbstractDataset.__init__",
+        "autoarray/dataset/abstract/dataset.py:AbstractDataset.grids",
+        "autoarray/dataset/abstract/dataset.py:AbstractDataset.grid",
+        "autoarray/dataset/abstract/dataset.py:AbstractDataset.signal_to_noise_map",
+        "autoarray/dataset/abstract/dataset.py:AbstractDataset.trimmed_after_convolution_from",
+        "autoarray/dataset/imaging/dataset.py:Imaging.__init__",
+        "autoarray/dataset/imaging/dataset.py:Imaging.grids",
+        "autoarray/dataset/imaging/dataset.py:Imaging.convolver",
+        "autoarray/dataset/imaging/dataset.py:Imaging.w_tilde",
+        "autoarray/dataset/imaging/dataset.py:Imaging.apply_mask",
+        "autoarray/dataset/imaging/dataset.py:Imaging.apply_noise_scaling",
+        "autoarray/dataset/imaging/dataset.py:Imaging.apply_over_sampling",
+        "autoarray/dataset/grids.py:GridsDataset.__init__",
+        "autoarray/dataset/grids.py:GridsDataset.uniform",
+        "autoarray/dataset/grids.py:GridsDataset.pixelization",
+        "autoarray/dataset/grids.py:GridsDataset.blurring",
+        "autoarray/dataset/preprocess.py:setup_random_seed",
+        "autoarray/dataset/preprocess.py:poisson_noise_via_data_eps_from",
+        "autoarray/dataset/preprocess.py:data_eps_with_poisson_noise_added",
+        "autoarray/dataset/preprocess.py:gaussian_noise_via_shape_and_sigma_from",
+        "autoarray/dataset/preprocess.py:data_with_gaussian_noise_added",
+        "autoarray/dataset/preprocess.py:data_with_complex_gaussian_noise_added",
+        "autoarray/dataset/imaging/simulator.py:SimulatorImaging.__init__",
+        "autoarray/dataset/imaging/simulator.py:SimulatorImaging.via_image_from",
+        "autoarray/fit/fit_dataset.py:FitDataset.__init__",
+        "autoarray/fit/fit_imaging.py:FitImaging.__init__",
+        "autoarray/inversion/inversion/factory.py:inversion_from",
+        "autoarray/inversion/inversion/factory.py:inversion_imaging_from",
+        "autoarray/inversion/inversion/abstract.py:AbstractInversion.__init__",
+        "autoarray/inversion/inversion/abstract.py:AbstractInversion.mapping_matrix",
+        "autoarray/inversion/inversion/abstract.py:AbstractInversion.operated_mapping_matrix",
+        "autoarray/inversion/inversion/abstract.py:AbstractInversion.regularization_matrix",
+        "autoarray/inversion/inversion/abstract.py:AbstractInversion.regularization_matrix_reduced",
+        "autoarray/inversion/inversion/abstract.py:AbstractInversion.curvature_reg_matrix",
+        "autoarray/inversion/inversion/abstract.py:AbstractInversion.curvature_reg_matrix_reduced",
+        "autoarray/inversion/inversion/abstract.py:AbstractInversion.reconstruction",
+        "autoarray/inversion/inversion/abstract.py:AbstractInversion.reconstruction_reduced",
+        "autoarray/inversion/inversion/abstract.py:AbstractInversion.mapped_reconstructed_data",
+        "autoarray/inversion/inversion/abstract.py:AbstractInversion.mapped_reconstructed_image",
+        "autoarray/inversion/inversion/abstract.py:AbstractInversion.data_subtracted_dict",
+        "autoarray/inversion/inversion/abstract.py:AbstractInversion.regularization_term",
+        "autoarray/inversion/inversion/imaging/mapping.py:InversionImagingMapping.data_vector",
+        "autoarray/inversion/inversion/imaging/mapping.py:InversionImagingMapping.curvature_matrix",
+        "autoarray/inversion/inversion/imaging/w_tilde.py:InversionImagingWTilde.data_vector",
+        "autoarray/inversion/inversion/imaging/w_tilde.py:InversionImagingWTilde.curvature_matrix",
+        "autoarray/inversion/inversion/inversion_util.py:curvature_matrix_with_added_to_diag_from",
+        "autoarray/inversion/inversion/mapper_valued.py:MapperValued.__init__",
+        "autoarray/inversion/inversion/mapper_valued.py:MapperValued.values_masked",
+        "autoarray/inversion/inversion/mapper_valued.py:MapperValued.interpolated_array_from",
+        "autoarray/inversion/inversion/mapper_valued.py:MapperValued.max_pixel_list_from",
+        "autoarray/inversion/inversion/mapper_valued.py:MapperValued.max_pixel_centre",
+        "autoarray/inversion/inversion/mapper_valued.py:MapperValued.mapped_reconstructed_image_from",
+        "autoarray/inversion/inversion/mapper_valued.py:MapperValued.magnification_via_interpolation_from",
+        "autoarray/inversion/pixelization/mappers/abstract.py:AbstractMapper.__init__",
+        "autoarray/inversion/pixelization/mappers/abstract.py:AbstractMapper.mapping_matrix",
+        "autoarray/inversion/pixelization/mappers/abstract.py:AbstractMapper.unique_mappings",
+        "autoarray/operators/over_sampling/uniform.py:OverSamplerUniform.__init__",
+        "autoarray/operators/over_sampling/uniform.py:OverSamplerUniform.over_sampled_grid",
+        "autoarray/operators/over_sampling/uniform.py:OverSamplerUniform.binned_array_2d_from",
+        "autoarray/structures/mesh/triangulation_2d.py:Abstract2DMeshTriangulation.voronoi_pixel_areas_for_split",
+        "autoarray/structures/mesh/voronoi_2d.py:Mesh2DVoronoi.areas_for_magnification",
+    ]
 
     # ------------------------------------------------------------------ generation
     def generate(self, tier, rng):
